@@ -59,8 +59,15 @@ func (p c01) Generate(c *Ctx) []any {
 	}
 	// class-specific streams for the open findings
 	for i := 0; i < n/8+3; i++ {
-		for _, st := range []string{"capture", "lowercase-typeparam", "template-local", "ensure-comparable", "exported-collision"} {
-			out = append(out, genGen(c.Rng, i, st))
+		for _, st := range []string{"capture", "lowercase-typeparam", "template-local", "ensure-comparable", "exported-collision", "ensure-split"} {
+			g := genGen(c.Rng, i, st)
+			if st == "ensure-split" {
+				// this stream is about the ensure lines only: stay clear of the shapes of the open findings
+				for try := 0; try < 20 && c01Class(&g) != ""; try++ {
+					g = genGen(c.Rng, i, st)
+				}
+			}
+			out = append(out, g)
 		}
 	}
 	return out
@@ -75,6 +82,14 @@ func genGen(r *rand.Rand, idx int, stream string) GenInput {
 	in.Data = genData(r, idx/6, "C01", stream)
 	if stream == "ensure-comparable" || stream == "exported-collision" {
 		in.Template = "matryer"
+	}
+	if stream == "ensure-split" {
+		// matryer's ensure lines (`var _ src.I = &Mock{}`) need the source package imported even when no signature
+		// mentions it: separate output package, signatures without source-package types, several interfaces whose
+		// effective skip-ensure values differ, formatters that do not repair imports
+		in.Template = "matryer"
+		in.Formatter = []string{"gofmt", "noop", "goimports"}[idx%3]
+		in.Data = genData(r, 2+3*idx, "C01", stream)
 	}
 	if in.Template == "testify" {
 		if r.Intn(2) == 0 {
@@ -117,6 +132,10 @@ func genGen(r *rand.Rand, idx int, stream string) GenInput {
 	in.OptLevels = map[string]string{}
 	for _, k := range sortedKeys(in.Options) {
 		in.OptLevels[k] = pick(r, []string{"top", "top", "package", "interface", "iface-over-package", "split", "split"})
+	}
+	if stream == "ensure-split" {
+		in.Options["skip-ensure"] = idx%2 == 0
+		in.OptLevels["skip-ensure"] = []string{"split", "iface-over-package", "split", "package"}[idx%4]
 	}
 	// keep the main stream inside the guard: parameter names away from the templates' own identifiers
 	for i := range in.Data.Ifaces {
